@@ -1316,7 +1316,7 @@ impl Property for C10 {
         }
     }
     fn rule_text(&self) -> String {
-        "Each simulated run is one history: a PRNG-generated project (several sources in nested directories, optional bundle DAG with data files and modules outside the input, or a single bundle entry), configuration and 1-12 user operations (edit / break / fix / add / add-require / remove file / remove directory / rename / delete-and-recreate / touch / configuration change incl. filter-only and invalid configurations / transient I/O fault then recovery) interleaved with passes, driven through one long-lived WorkerTree (L1: source_changed / remove_source / collect_work|add_source / process as --watch calls them) over SimFs or the real Memory arm under a chosen enumeration order and std hash seed. After every pass a fresh run over a copy of the current inputs (output location reset to the pre-existing foreign content) is the reference: output trees (files and directories) and error sets must be equal; a final idle pass must not write. evaluations = process() executions (passes + fresh runs). A history is non-trivial when some pass after the first rewrote a strict non-empty subset of the outputs; distinct = distinct sequence of per-pass normalised op logs.".to_owned()
+        "The first indices enumerate completely all histories of <= 2 (quick) / <= 3 (thorough) operations from a 16-letter alphabet over one fixed bundle project. Each further simulated run is one history: a PRNG-generated project (several sources in nested directories, optional bundle DAG with data files and modules outside the input, or a single bundle entry), configuration and 1-12 user operations (edit / break / fix / add / add-require / remove file / remove directory / rename / delete-and-recreate / touch / configuration change incl. filter-only and invalid configurations / transient I/O fault then recovery) interleaved with passes, driven through one long-lived WorkerTree (L1: source_changed / remove_source / collect_work|add_source / process as --watch calls them) over SimFs or the real Memory arm under a chosen enumeration order and std hash seed. After every pass a fresh run on a thread of its own over a copy of the current inputs (output location reset to the pre-existing foreign content) is the reference: output trees (files and directories) and error sets must be equal; a final idle pass must not write. evaluations = process() executions (passes + fresh runs). A history is non-trivial when some pass after the first rewrote a strict non-empty subset of the outputs; distinct = distinct sequence of per-pass normalised op logs.".to_owned()
     }
     fn assumptions(&self) -> Vec<String> {
         vec![
